@@ -549,6 +549,7 @@ func init() {
 		Title: "Interpreted goroutines and channels behave as Go permits on every schedule",
 		Explanation: "Decided (the race-freedom clause for the interpreter's own shared state, a necessary condition on every schedule): X1 lock set on IrGlobals.gls; X2 SpinLock; X3 Comp.Go evaluates the function value and the arguments in the caller's goroutine before the go statement, the goroutine creates, registers and unregisters (by defer) its own Run record, and newEnv4Func never touches another goroutine's frame pool; " +
 			"U sibling uniformity, S1 statement protocol and A2 accessor category over the channel specialisations (Send, Recv, select) in channel.go / select.go. " +
+			"H2 no statement or expression closure assigns to a variable of its compile function: compiled closures are shared by every goroutine that executes the same code (known finding F45: the call-site caches cachedfun/cachedfunv of five call compilers, a data race the race detector confirms); " +
 			"E3 the function value and the arguments of a go statement are detached from the variables they were read from before the goroutine starts (found F37: `go f(p); p.a = 50` let the goroutine see 50). " +
 			"Not decided: every schedule-dependent outcome, races inside user data, channel semantics (delegated to reflect.Send/Recv/Select).",
 		Assumptions: []string{"reflect.Value.Send/Recv/Select implement Go's channel semantics", "sync/atomic semantics"},
@@ -556,6 +557,7 @@ func init() {
 			ruleLockSet(c, "fast", "IrGlobals", "gls", "lock", "X1-lock-set")
 			ruleSpinLock(c, "X2-spinlock")
 			ruleGoidGate(c, "X3-goid-gate")
+			ruleNoRuntimeWritesToCaptured(c, "H2-no-runtime-write-to-captured")
 			ruleGoAttachesToOwnFrame(c, "X3g-go-own-frame")
 			ruleDetachedOperands(c, "E3-detached-operands", "fast.Comp.Go")
 			ruleUniformity(c, "fast", []string{"channel.go", "select.go"}, "U-uniform")
